@@ -2,15 +2,26 @@
 
 package handler
 
-// C02 driver (thorough tier): requests go through the real SheddingHandler in front of a real
-// adaptive shedder (CPU verdict injected, virtual clock). A recording wrapper around the
-// shedder logs every Allow / Pass / Fail the middleware performs; the next handler is gated by
-// the driver, so many requests can be parked in flight while exactly one thing happens at a
-// time. No expectations here: TLC validates the trace against specs/shedder/Shedder.tla
-// (events: reset adv allow pass fail hend -- hend{id}: the request that holds promise id has
-// returned, id 0: it was shed).
+// C02 driver, request level (both tiers): requests go through the real SheddingHandler in front
+// of a real adaptive shedder (CPU verdict injected, virtual clock). A recording wrapper around
+// the shedder logs every Allow / Pass / Fail the middleware performs; a shim around what the
+// middleware calls as its next handler logs how that handler ended (hdone, in a defer, as
+// observed: status written / panic); the innermost handler is gated by the driver, so many
+// requests can be parked in flight while exactly one thing happens at a time. No expectations
+// here: TLC validates the trace against specs/shedder/ShedderWrap.tla (events: reset adv hin
+// allow hdone pass fail hend).
+//
+// modes: "plain"     SheddingHandler -> handler
+//        "chain"     SheddingHandler -> TimeoutHandler(1h) -> handler (a panic is re-raised by the
+//                    timeout handler and travels through the shedding handler; "cancel" /
+//                    "timeout" end the request through its context while the handler is parked)
+//        "chainrec"  SheddingHandler -> TimeoutHandler(1h) -> RecoverHandler -> handler, the order
+//                    rest/engine.go sets up (a panic becomes a 500)
+//        "nop"       plain, with the shedder of a process whose shedding is disabled
 
 import (
+	"context"
+	"encoding/json"
 	"net/http"
 	"net/http/httptest"
 	"sync"
@@ -31,18 +42,20 @@ var (
 	c02Ov  atomic.Bool
 )
 
+// c02Rec wraps the real shedder and logs what the middleware does with it.
 type c02Rec struct {
-	em     *verifEmitter
-	inner  load.Shedder
-	mu     sync.Mutex
-	next   int
-	lastID int
+	em    *verifEmitter
+	inner load.Shedder
+	mu    sync.Mutex
+	next  int
+	cur   int // the request being handed to the wrapper
 }
 
 type c02Promise struct {
-	r  *c02Rec
-	id int
-	p  load.Promise
+	r   *c02Rec
+	req int
+	id  int
+	p   load.Promise
 }
 
 func (r *c02Rec) Allow() (load.Promise, error) {
@@ -52,121 +65,376 @@ func (r *c02Rec) Allow() (load.Promise, error) {
 	r.mu.Lock()
 	defer r.mu.Unlock()
 	r.next++
+	r.em.Emit(verifEv{"e": "allow", "r": r.cur, "id": r.next, "ov": ov, "shed": err != nil, "fly": fly, "avg": avg})
 	if err != nil {
-		r.lastID = 0
-		r.em.Emit(verifEv{"e": "allow", "id": r.next, "ov": ov, "shed": true, "fly": fly, "avg": avg})
 		return nil, err
 	}
-	r.lastID = r.next
-	r.em.Emit(verifEv{"e": "allow", "id": r.next, "ov": ov, "shed": false, "fly": fly, "avg": avg})
-	return &c02Promise{r: r, id: r.next, p: p}, nil
+	return &c02Promise{r: r, req: r.cur, id: r.next, p: p}, nil
 }
 
 func (p *c02Promise) Pass() {
 	p.p.Pass()
 	fly, avg, _ := load.VerifC02Peek(p.r.inner)
-	p.r.em.Emit(verifEv{"e": "pass", "id": p.id, "fly": fly, "avg": avg})
+	p.r.em.Emit(verifEv{"e": "pass", "r": p.req, "id": p.id, "fly": fly, "avg": avg})
 }
 
 func (p *c02Promise) Fail() {
 	p.p.Fail()
 	fly, avg, _ := load.VerifC02Peek(p.r.inner)
-	p.r.em.Emit(verifEv{"e": "fail", "id": p.id, "fly": fly, "avg": avg})
+	p.r.em.Emit(verifEv{"e": "fail", "r": p.req, "id": p.id, "fly": fly, "avg": avg})
 }
+
+// c02Ctx is a context the driver ends by hand, with the error of its choice (no wall clock).
+type c02Ctx struct {
+	context.Context
+	done chan struct{}
+	mu   sync.Mutex
+	err  error
+}
+
+func (c *c02Ctx) Done() <-chan struct{} { return c.done }
+func (c *c02Ctx) Err() error {
+	c.mu.Lock()
+	defer c.mu.Unlock()
+	return c.err
+}
+func (c *c02Ctx) Deadline() (time.Time, bool) { return time.Time{}, false }
+func (c *c02Ctx) end(err error) {
+	c.mu.Lock()
+	c.err = err
+	c.mu.Unlock()
+	close(c.done)
+}
+
+type c02Key struct{}
 
 type c02Req struct {
-	id      int
+	n       int
+	ctx     *c02Ctx
 	release chan string
 	done    chan struct{}
+	how     string
 }
 
-func TestVerifC02SheddingHandler(t *testing.T) {
-	em := verifOpen(t)
-	defer em.Close()
+type c02Geo struct {
+	nb  int
+	bd  int64
+	thr int64
+}
+
+// concrete ways a handler ends, by the class the specification talks about
+var c02Outcomes = map[string][]string{
+	"ok":      {"200", "body", "silent", "204", "302", "400", "404", "429"},
+	"failcls": {"503", "503body"},
+	"err":     {"500", "502", "504", "500body"},
+	"panic":   {"panic", "abort", "503panic", "bodypanic"},
+}
+
+// c02Code records the status the next handler answered with (observation only).
+type c02Code struct {
+	http.ResponseWriter
+	code int
+}
+
+func (w *c02Code) WriteHeader(code int) {
+	if w.code == 0 {
+		w.code = code
+	}
+	w.ResponseWriter.WriteHeader(code)
+}
+
+func (w *c02Code) Write(b []byte) (int, error) {
+	if w.code == 0 {
+		w.code = http.StatusOK
+	}
+	return w.ResponseWriter.Write(b)
+}
+
+type c02Sess struct {
+	t      *testing.T
+	em     *verifEmitter
+	mode   string
+	rec    *c02Rec
+	h      http.Handler
+	parked []*c02Req
+	enter  chan *c02Req
+	nreq   int
+}
+
+func c02Install(t *testing.T) func() {
 	logx.Disable()
 	stat.SetReporter(nil)
 	timex.VerifNow = func() time.Duration {
 		return c02Base + time.Duration(c02Rel.Load())*time.Millisecond
 	}
-	defer func() { timex.VerifNow = nil }()
-	defer load.VerifC02SetOverload(func() bool { return c02Ov.Load() })()
+	restore := load.VerifC02SetOverload(func() bool { return c02Ov.Load() })
+	return func() {
+		restore()
+		timex.VerifNow = nil
+	}
+}
+
+func c02NewSess(t *testing.T, em *verifEmitter, mode string, g c02Geo, metrics *stat.Metrics) *c02Sess {
+	s := &c02Sess{t: t, em: em, mode: mode, enter: make(chan *c02Req, 1)}
+	c02Rel.Store(0)
+	opts := []load.ShedderOption{load.WithBuckets(g.nb),
+		load.WithWindow(time.Duration(g.bd) * time.Millisecond * time.Duration(g.nb)), load.WithCpuThreshold(g.thr)}
+	kind := "adaptive"
+	var inner load.Shedder
+	if mode == "nop" {
+		inner = load.VerifC02NewDisabled(opts...)
+		kind = "nop"
+	} else {
+		inner = load.NewAdaptiveShedder(opts...)
+	}
+	s.rec = &c02Rec{em: em, inner: inner}
+	em.Emit(verifEv{"e": "reset", "kind": kind, "nb": g.nb, "bd": g.bd})
+	// the innermost handler: parks until the driver says how to end
+	var gated http.Handler = http.HandlerFunc(func(w http.ResponseWriter, r *http.Request) {
+		q := r.Context().Value(c02Key{}).(*c02Req)
+		s.enter <- q
+		switch what := <-q.release; what {
+		case "200":
+			w.WriteHeader(http.StatusOK)
+		case "body":
+			w.Write([]byte("c02"))
+		case "silent":
+		case "204":
+			w.WriteHeader(http.StatusNoContent)
+		case "302":
+			w.WriteHeader(http.StatusFound)
+		case "400":
+			w.WriteHeader(http.StatusBadRequest)
+		case "404":
+			w.WriteHeader(http.StatusNotFound)
+		case "429":
+			w.WriteHeader(http.StatusTooManyRequests)
+		case "503":
+			w.WriteHeader(http.StatusServiceUnavailable)
+		case "503body":
+			w.WriteHeader(http.StatusServiceUnavailable)
+			w.Write([]byte("c02"))
+		case "500":
+			w.WriteHeader(http.StatusInternalServerError)
+		case "500body":
+			w.WriteHeader(http.StatusInternalServerError)
+			w.Write([]byte("c02"))
+		case "502":
+			w.WriteHeader(http.StatusBadGateway)
+		case "504":
+			w.WriteHeader(http.StatusGatewayTimeout)
+		case "panic":
+			panic("c02 handler panic")
+		case "abort":
+			panic(http.ErrAbortHandler)
+		case "503panic":
+			w.WriteHeader(http.StatusServiceUnavailable)
+			panic("c02 handler panic after 503")
+		case "bodypanic":
+			w.Write([]byte("c02"))
+			panic("c02 handler panic after body")
+		}
+	})
+	behind := gated
+	switch mode {
+	case "chain":
+		behind = TimeoutHandler(time.Hour)(gated)
+	case "chainrec":
+		behind = TimeoutHandler(time.Hour)(RecoverHandler(gated))
+	}
+	shim := http.HandlerFunc(func(w http.ResponseWriter, r *http.Request) {
+		q := r.Context().Value(c02Key{}).(*c02Req)
+		cw := &c02Code{ResponseWriter: w}
+		defer func() {
+			p := recover()
+			out := "ok"
+			switch {
+			case p != nil:
+				out = "panic"
+			case cw.code == http.StatusServiceUnavailable:
+				out = "failcls"
+			case cw.code >= 500:
+				out = "err"
+			}
+			em.Emit(verifEv{"e": "hdone", "r": q.n, "out": out})
+			if p != nil {
+				panic(p)
+			}
+		}()
+		behind.ServeHTTP(cw, r)
+	})
+	s.h = SheddingHandler(s.rec, metrics)(shim)
+	return s
+}
+
+func (s *c02Sess) adv(d int64) {
+	c02Rel.Add(d)
+	s.em.Emit(verifEv{"e": "adv", "d": d})
+}
+
+// start hands a new request to the wrapper and waits until it is parked in its handler or back.
+func (s *c02Sess) start(ov bool) {
+	s.nreq++
+	q := &c02Req{n: s.nreq, release: make(chan string, 1), done: make(chan struct{})}
+	q.ctx = &c02Ctx{Context: context.WithValue(context.Background(), c02Key{}, q), done: make(chan struct{})}
+	c02Ov.Store(ov)
+	s.rec.cur = q.n
+	s.em.Emit(verifEv{"e": "hin", "r": q.n})
+	go func() {
+		defer close(q.done)
+		defer func() {
+			q.how = "ret"
+			if recover() != nil {
+				q.how = "panic"
+			}
+		}()
+		req := httptest.NewRequest(http.MethodGet, "http://localhost/c02", http.NoBody).WithContext(q.ctx)
+		s.h.ServeHTTP(httptest.NewRecorder(), req)
+	}()
+	select {
+	case <-s.enter:
+		s.parked = append(s.parked, q)
+	case <-q.done:
+		s.em.Emit(verifEv{"e": "hend", "r": q.n, "how": q.how})
+	case <-time.After(120 * time.Second):
+		s.t.Fatal("c02: request neither reached the handler nor returned")
+	}
+}
+
+// finish lets the i-th parked request end the given way and waits until the wrapper gave control back.
+func (s *c02Sess) finish(i int, what string) {
+	q := s.parked[i]
+	s.parked = append(s.parked[:i], s.parked[i+1:]...)
+	switch what {
+	case "cancel": // the client goes away: the timeout handler answers 499, the handler stays parked
+		q.ctx.end(context.Canceled)
+	case "timeout": // the deadline passes: the timeout handler answers 503
+		q.ctx.end(context.DeadlineExceeded)
+	default:
+		q.release <- what
+	}
+	select {
+	case <-q.done:
+		s.em.Emit(verifEv{"e": "hend", "r": q.n, "how": q.how})
+	case <-time.After(120 * time.Second):
+		s.t.Fatal("c02: released request did not return")
+	}
+	if what == "cancel" || what == "timeout" {
+		q.release <- "silent" // let the abandoned handler goroutine go (nobody listens to it any more)
+	}
+}
+
+// pick a concrete way to end for an outcome class
+func (s *c02Sess) variant(rnd interface{ Intn(int) int }, class string) string {
+	if (s.mode == "chain" || s.mode == "chainrec") && rnd.Intn(3) == 0 {
+		switch class {
+		case "ok":
+			return "cancel"
+		case "failcls":
+			return "timeout"
+		}
+	}
+	v := c02Outcomes[class]
+	return v[rnd.Intn(len(v))]
+}
+
+type c02WOp struct {
+	Op  string `json:"op"` // adv | start | finish
+	D   int64  `json:"d"`
+	Ov  bool   `json:"ov"`
+	K   int    `json:"k"`
+	Out string `json:"out"`
+}
+
+var c02Modes = []string{"plain", "chain", "chainrec", "nop"}
+
+// TestVerifC02WrapReplay performs the TLC-generated request-level histories (ShedderWrapImpl, one per
+// distinct reachable model state; model time unit = VERIF_C02_UNIT ms, 3 buckets of 2 units) (every
+// one in plain mode, shared out over the other modes).
+func TestVerifC02WrapReplay(t *testing.T) {
+	em := verifOpen(t)
+	defer em.Close()
+	defer c02Install(t)()
+	rnd := verifRand(71)
+	metrics := stat.NewMetrics("c02")
+	unit := int64(verifEnvInt("VERIF_C02_UNIT", 250))
+	var hists [][]c02WOp
+	for _, raw := range verifInput(t) {
+		var ops []c02WOp
+		if err := json.Unmarshal(raw, &ops); err != nil {
+			t.Fatal(err)
+		}
+		hists = append(hists, ops)
+	}
+	for _, mode := range c02Modes {
+		for hi, ops := range hists {
+			// every history in plain mode; the chain modes share them out (the seed decides); few in nop mode
+			switch mode {
+			case "chain":
+				if (int64(hi)+verifSeed())%2 != 0 {
+					continue
+				}
+			case "chainrec":
+				if (int64(hi)+verifSeed())%2 == 0 {
+					continue
+				}
+			case "nop":
+				if (int64(hi)+verifSeed())%8 != 0 {
+					continue
+				}
+			}
+			s := c02NewSess(t, em, mode, c02Geo{3, 2 * unit, -1000000000}, metrics)
+			for _, op := range ops {
+				switch op.Op {
+				case "adv":
+					s.adv(op.D * unit)
+				case "start":
+					s.start(op.Ov)
+				case "finish":
+					// the model's k-th parked request; the real shedder may have decided differently
+					if len(s.parked) > 0 {
+						s.finish((op.K-1)%len(s.parked), s.variant(rnd, op.Out))
+					}
+				}
+			}
+			for len(s.parked) > 0 {
+				s.finish(0, "200")
+			}
+		}
+	}
+}
+
+// TestVerifC02SheddingHandler: seeded random request-level histories. Per history an outcome
+// profile (mixed / nearly all ok / failure heavy / panic heavy), a wandering in-flight target and
+// a CPU pattern; gaps on bucket edges, window lengths and the cool-off boundary.
+func TestVerifC02SheddingHandler(t *testing.T) {
+	em := verifOpen(t)
+	defer em.Close()
+	defer c02Install(t)()
 	rnd := verifRand(7)
 	metrics := stat.NewMetrics("c02")
-	type geo struct {
-		nb  int
-		bd  int64
-		thr int64
-	}
-	geos := []geo{{3, 500, -1000000000}, {4, 1000, 999}, {10, 100, -1000000000}, {5, 20, 500}}
+	geos := []c02Geo{{3, 500, -1000000000}, {4, 1000, 999}, {10, 100, -1000000000}, {5, 20, 500}}
 	runs := verifEnvInt("VERIF_C02_WHIST", 40)
+	lo := verifEnvInt("VERIF_C02_WLEN", 150)
+	profiles := [][]string{
+		{"ok", "ok", "ok", "ok", "failcls", "failcls", "err", "err", "panic"},
+		{"ok", "ok", "ok", "ok", "ok", "ok", "ok", "ok", "ok", "ok", "ok", "failcls", "err", "panic"},
+		{"failcls", "failcls", "failcls", "failcls", "ok", "err", "panic"},
+		{"panic", "panic", "panic", "ok", "ok", "failcls", "err"},
+	}
 	for run := 0; run < runs; run++ {
 		g := geos[rnd.Intn(len(geos))]
-		c02Rel.Store(0)
-		inner := load.NewAdaptiveShedder(load.WithBuckets(g.nb),
-			load.WithWindow(time.Duration(g.bd)*time.Millisecond*time.Duration(g.nb)), load.WithCpuThreshold(g.thr))
-		rec := &c02Rec{em: em, inner: inner}
-		em.Emit(verifEv{"e": "reset", "kind": "adaptive", "nb": g.nb, "bd": g.bd})
-		entered := make(chan *c02Req, 1)
-		var cur *c02Req
-		next := http.HandlerFunc(func(w http.ResponseWriter, r *http.Request) {
-			q := cur
-			entered <- q
-			switch what := <-q.release; what {
-			case "503":
-				w.WriteHeader(http.StatusServiceUnavailable)
-			case "500":
-				w.WriteHeader(http.StatusInternalServerError)
-			case "body":
-				w.Write([]byte("c02"))
-			case "503body":
-				w.WriteHeader(http.StatusServiceUnavailable)
-				w.Write([]byte("c02"))
-			case "panic":
-				panic("c02 handler panic")
-			case "abort":
-				panic(http.ErrAbortHandler)
-			case "silent":
-			default:
-				w.WriteHeader(http.StatusOK)
-			}
-		})
-		h := SheddingHandler(rec, metrics)(next)
-		var parked []*c02Req
-		start := func() {
-			q := &c02Req{release: make(chan string, 1), done: make(chan struct{})}
-			cur = q
-			go func() {
-				defer close(q.done)
-				defer func() { recover() }()
-				req := httptest.NewRequest(http.MethodGet, "http://localhost/c02", http.NoBody)
-				h.ServeHTTP(httptest.NewRecorder(), req)
-			}()
-			select {
-			case <-entered:
-				q.id = rec.lastID
-				parked = append(parked, q)
-			case <-q.done:
-				em.Emit(verifEv{"e": "hend", "id": 0})
-			case <-time.After(60 * time.Second):
-				t.Fatal("request neither reached the handler nor returned")
-			}
+		mode := c02Modes[run%len(c02Modes)]
+		if mode == "nop" && rnd.Intn(2) == 0 {
+			mode = "plain"
 		}
-		finish := func(i int, what string) {
-			q := parked[i]
-			parked = append(parked[:i], parked[i+1:]...)
-			q.release <- what
-			select {
-			case <-q.done:
-				em.Emit(verifEv{"e": "hend", "id": q.id})
-			case <-time.After(60 * time.Second):
-				t.Fatal("released request did not return")
-			}
-		}
-		outcomes := []string{"ok", "ok", "ok", "body", "silent", "503", "503body", "500", "panic", "abort"}
+		s := c02NewSess(t, em, mode, g, metrics)
+		prof := profiles[rnd.Intn(len(profiles))]
 		target := 2 + rnd.Intn(6)
 		pOv := rnd.Intn(3)
 		lastOv := int64(-1)
-		for step := 0; step < 150+rnd.Intn(150); step++ {
+		steps := lo + rnd.Intn(lo+1)
+		for step := 0; step < steps; step++ {
 			if rnd.Intn(25) == 0 {
 				target = 1 + rnd.Intn(12)
 				pOv = rnd.Intn(3)
@@ -179,23 +447,28 @@ func TestVerifC02SheddingHandler(t *testing.T) {
 				if d < 1 {
 					d = 1
 				}
-				c02Rel.Add(d)
-				em.Emit(verifEv{"e": "adv", "d": d})
-			case len(parked) <= target && x < 7:
+				s.adv(d)
+			case len(s.parked) <= target && x < 7:
 				ov := pOv == 2 || pOv == 1 && rnd.Intn(2) == 0
-				c02Ov.Store(ov)
 				if ov {
 					lastOv = c02Rel.Load()
 				}
-				start()
+				s.start(ov)
 			default:
-				if len(parked) > 0 {
-					finish(rnd.Intn(len(parked)), outcomes[rnd.Intn(len(outcomes))])
+				if len(s.parked) > 0 {
+					s.finish(rnd.Intn(len(s.parked)), s.variant(rnd, prof[rnd.Intn(len(prof))]))
 				}
 			}
 		}
-		for len(parked) > 0 {
-			finish(0, outcomes[rnd.Intn(len(outcomes))])
+		// drain, then a few requests under CPU load with nothing else in flight
+		for len(s.parked) > 0 {
+			s.finish(0, s.variant(rnd, prof[rnd.Intn(len(prof))]))
+		}
+		for i := 0; i < 3; i++ {
+			s.start(true)
+			for len(s.parked) > 0 {
+				s.finish(0, "200")
+			}
 		}
 	}
 }
